@@ -102,6 +102,7 @@ def run(ctx):
                 'after every step every subscriptions() key and subscribed() compared with the reference model of the '
                 'statement (order: base registries first, less specific first, subscription order); distinct = histories')
     ctx.bounds = 'history<=6, interfaces<=4, registries<=3'
+    regcommon.first_after_mutation(ctx, 'C07')
     trials = 900 if ctx.tier == 'quick' else 8000
     for t in range(trials):
         if ctx.out_of_time() or ctx.too_many():
